@@ -27,6 +27,10 @@ type c10Case struct {
 	Where  string     `json:"where"`
 	Shapes []string   `json:"predicate_shapes"`
 	Evolve string     `json:"column_absent_in_one_generation,omitempty"`
+	// ExtNames: before the delete the stored files are renamed, per hour directory, to
+	// part-0000.parquet, part-0001.parquet, ... (the layout of restored, bulk-copied or
+	// externally written files): files of different partitions share base names.
+	ExtNames bool `json:"per_directory_file_names,omitempty"`
 }
 
 var (
@@ -351,5 +355,5 @@ func genC10Case(r *rand.Rand, idx int) c10Case {
 			shapes = append(shapes, s)
 		}
 	}
-	return c10Case{Idx: idx, Gens: gens, Where: where, Shapes: shapes, Evolve: evolve}
+	return c10Case{Idx: idx, Gens: gens, Where: where, Shapes: shapes, Evolve: evolve, ExtNames: idx%4 == 3}
 }
